@@ -99,6 +99,7 @@ func runStore(o *Out, r *rand.Rand, thorough bool, args []string) {
 	}
 	corpusReopenEmpty(o)
 	if len(args) > 0 && args[0] == "corpus" {
+		tinyHistory(o, r) // ends with a reopen: the usage figure a pass of more than a thousand deletions left on disk
 		return
 	}
 	for h := 0; h < nHist; h++ {
@@ -387,6 +388,12 @@ func tinyHistory(o *Out, r *rand.Rand) {
 		r.Read(id)
 		id[0] = node[0] ^ (id[0] & 0x3f)
 		put(id, 20000+r.Intn(29000), r.Intn(1000), true)
+	}
+	// a restart: what the pruning passes left on disk is what the store starts from
+	if st2, err := spebble.NewStorage(cfg, db); err != nil {
+		o.Case("reopen", "err")
+	} else {
+		o.Case("reopen", "ok "+observe(db).snap(st2))
 	}
 }
 
